@@ -7,7 +7,7 @@ class TooComplex(Exception):
     pass
 
 
-def enumerate_rows(prog, body, label_switch, classify_ret, start=0, stop_blocks=None, max_paths=4000):
+def enumerate_rows(prog, body, label_switch, classify_ret, start=0, stop_blocks=None, max_paths=4000, ret_local=0, sensitive=False):
     """label_switch(blk, term) -> (label, {target_block: outcome}) or None (branch is followed without a label).
     classify_ret(blk, kind, idx, obj) -> action string for a definition of `_0` (last one on the path wins).
     Returns list of (tuple(sorted decisions), action, path)."""
@@ -16,7 +16,7 @@ def enumerate_rows(prog, body, label_switch, classify_ret, start=0, stop_blocks=
     ret_defs_by_blk = {}
     # the return place and the temporaries that are only ever *moved* into it (`_0 = move _r`, as left behind when a helper's
     # `return x` was looked through): what such a temporary was last given on the path is what the path returns
-    chain, work = {0}, [0]
+    chain, work = {ret_local}, [ret_local]
     while work:
         r = work.pop()
         for kind, blk, i, d, obj in idx.defs.get(r, []):
@@ -39,10 +39,16 @@ def enumerate_rows(prog, body, label_switch, classify_ret, start=0, stop_blocks=
     rows = []
     n = [0]
 
-    def walk(b, decisions, action, path, onpath):
+    if sensitive:
+        cfg._ps_prepare()
+
+    def walk(b, decisions, action, path, onpath, state=()):
         n[0] += 1
         if n[0] > max_paths:
             raise TooComplex(body.path)
+        if stop_blocks and b in stop_blocks and path:
+            rows.append((tuple(sorted(decisions.items())), action, path + [b]))
+            return
         if b in onpath:
             raise TooComplex("loop in %s" % body.path)
         onpath = onpath | {b}
@@ -50,13 +56,19 @@ def enumerate_rows(prog, body, label_switch, classify_ret, start=0, stop_blocks=
         for (kind, i, obj) in ret_defs_by_blk.get(b, []):
             action = classify_ret(b, kind, i, obj)
         t = body.blocks[b].term
-        if t.k == "return" or (stop_blocks and b in stop_blocks):
+        if t.k == "return":
             rows.append((tuple(sorted(decisions.items())), action, path))
             return
         succ = cfg.succ[b]
+        known = False
+        if sensitive:
+            # constants built on this path (`return None` of a looked-through helper) decide the switches they reach
+            st_, succ = cfg._ps_step(b, dict(state))
+            state = tuple(sorted(st_.items(), key=repr))
+            known = cfg._ps_known
         if not succ:
             return   # unreachable / diverging
-        lab = label_switch(body.blocks[b], t) if t.k == "switch" else None
+        lab = label_switch(body.blocks[b], t) if t.k == "switch" and not known else None
         for s in succ:
             d2 = decisions
             if lab is not None:
@@ -67,7 +79,7 @@ def enumerate_rows(prog, body, label_switch, classify_ret, start=0, stop_blocks=
                         continue  # contradictory path
                     d2 = dict(decisions)
                     d2[label] = oc
-            walk(s, d2, action, path, onpath)
+            walk(s, d2, action, path, onpath, state)
     walk(start, {}, None, [], frozenset())
     return rows
 
